@@ -9,11 +9,6 @@ use tantivy_columnar::NumericalType;
 use tvmon::rng::Rng;
 
 pub static THOROUGH: AtomicBool = AtomicBool::new(false);
-thread_local! {
-    /// the IPv4 full-span profile (known overflow-check panic in the compact-space builder) kills
-    /// a whole indexing thread when it goes through tantivy; it is exercised in the direct streams
-    pub static ALLOW_IP_SPAN: std::cell::Cell<bool> = const { std::cell::Cell::new(true) };
-}
 pub fn thorough() -> bool {
     THOROUGH.load(Ordering::Relaxed)
 }
@@ -697,10 +692,10 @@ pub fn gen_ip_seq(rng: &mut Rng, m: usize) -> (Vec<u128>, String) {
     const V4: u128 = 0xFFFF_0000_0000;
     let kind = rng.weighted(&[10, 8, 10, 4, 6, 6, 6, 2]);
     match kind {
-        7 if m >= 8 && ALLOW_IP_SPAN.with(|c| c.get()) => {
+        7 if m >= 8 => {
             // evenly spread IPv4 addresses from 0.0.0.1 to 255.255.255.255: the value span is
             // exactly u32::MAX and no gap is worth removing, so the compact space is as large as
-            // it can get (2^32 - 1 codes)
+            // it can get (2^32 - 1 codes; used to overflow the u32 bookkeeping, fixed in 0aef3803c)
             let d = m.min(5000) as u128;
             let step = 0xFFFF_FFFEu128 / (d - 1);
             let mut v: Vec<u128> = (0..m).map(|_| V4 | (1 + step * rng.below(d as u64) as u128)).collect();
